@@ -53,3 +53,63 @@ package traceroute
 //@ ensures[C05.e2e.single]  lastarg(runTracerouteOnce, params).MinTTL == params.MaxTTL && lastarg(runTracerouteOnce, params).MaxTTL == params.MaxTTL
 //@ ensures[C10.e2e.err]     ret1 != nil ==> ret0 == 0.0
 //@ modifies *, ghost isOpen, ghost closeN, ghost clock, ghost sendN, ghost sendLog, ghost sendClock, ghost tcpDialed, ghost ioFail
+
+// ---- C15: multi-query orchestration. The goroutines share results/multiErr under resultsAndErrorsMu. Auxiliary
+// counters (owned by the monitor) count finished run/probe goroutines and how many of them failed; the monitor
+// invariant ties the lengths of the shared slices to those counters under every interleaving; at wg.Wait() every
+// goroutine has made its one contribution, so the counters equal the number of goroutines started.
+
+//@ func (Traceroute).runTracerouteMulti
+//@ safety C15 C10 C14
+//@ ghost runsDone Int = 0
+//@ ghost e2eDone Int = 0
+//@ ghost runFails Int = 0
+//@ ghost e2eFails Int = 0
+//@ monitor resultsAndErrorsMu protects results, multiErr, ghost runsDone, ghost e2eDone, ghost runFails, ghost e2eFails
+//@ inv[C15.count.runs]  len(results.Traceroute.Runs) + runFails == runsDone && runFails >= 0
+//@ inv[C15.count.e2e]   len(results.E2eProbe.RTTs) == e2eDone && 0 <= e2eFails && e2eFails <= e2eDone
+//@ inv[C15.count.errs]  len(multiErr) == runFails + e2eFails
+//@ inv[C15.errs.nonnil]  forall(k, 0, len(multiErr), multiErr[k] != nil)
+//@ requires[pre.ctx]        ctx != nil && sendN >= 0 && t.publicIPFetcher != nil
+//@ ensures[C15.atom]        ret1 != nil ==> ret0 == nil
+//@ ensures[C15.ok.runs]     ret1 == nil ==> ret0 != nil && len(ret0.Traceroute.Runs) == ite(params.TracerouteQueries > 0, params.TracerouteQueries, 0)
+//@ ensures[C15.ok.e2e]      ret1 == nil ==> len(ret0.E2eProbe.RTTs) == ite(params.E2eQueries > 0, params.E2eQueries, 0)
+//@ ensures[C15.ok.nofail]   ret1 == nil ==> runFails == 0 && e2eFails == 0
+//@ ensures[C15.err.fails]   (ret1 != nil) == (runFails + e2eFails >= 1)
+//@ ensures[C15.err.all]     ret1 != nil ==> forall(k, 0, len(multiErr), wraps(ret1, multiErr[k]))
+//@ ensures[C15.done]        runsDone == ite(params.TracerouteQueries > 0, params.TracerouteQueries, 0) && e2eDone == ite(params.E2eQueries > 0, params.E2eQueries, 0)
+//@ modifies *, ghost isOpen, ghost closeN, ghost clock, ghost sendN, ghost sendLog, ghost sendClock, ghost tcpDialed, ghost ioFail, ghost runsDone, ghost e2eDone, ghost runFails, ghost e2eFails
+//@ loop 1 invariant[spawned.runs]  0 <= i && (i <= params.TracerouteQueries || i == 0) && expected(runsDone) == i && expected(e2eDone) == 0
+//@ loop 2 invariant[spawned.e2e]   0 <= i && i <= params.E2eQueries && expected(e2eDone) == i && expected(runsDone) == ite(params.TracerouteQueries > 0, params.TracerouteQueries, 0)
+
+// one traceroute run: exactly one of "append the run" / "append the error", under the lock
+//@ func (Traceroute).runTracerouteMulti$1
+//@ safety C15 C14
+//@ requires[pre.ctx]        ctx != nil && resultsAndErrorsMu != nil && !held(resultsAndErrorsMu) && sendN >= 0
+//@ onunlock resultsAndErrorsMu ghost runsDone += 1
+//@ onunlock resultsAndErrorsMu ghost runFails += ite(lastres(runTracerouteOnce, 1) != nil, 1, 0)
+//@ contributes runsDone 1
+//@ atunlock[C15.run.ok]     lastres(runTracerouteOnce, 1) == nil ==> len(results.Traceroute.Runs) == atlock(len(results.Traceroute.Runs)) + 1 && len(multiErr) == atlock(len(multiErr)) && len(results.E2eProbe.RTTs) == atlock(len(results.E2eProbe.RTTs))
+//@ atunlock[C15.run.fail]   lastres(runTracerouteOnce, 1) != nil ==> len(results.Traceroute.Runs) == atlock(len(results.Traceroute.Runs)) && len(multiErr) == atlock(len(multiErr)) + 1 && multiErr[len(multiErr)-1] == lastres(runTracerouteOnce, 1) && len(results.E2eProbe.RTTs) == atlock(len(results.E2eProbe.RTTs))
+//@ ensures[C14.unlocked]    !held(resultsAndErrorsMu)
+//@ modifies *, ghost isOpen, ghost closeN, ghost clock, ghost sendN, ghost sendLog, ghost sendClock, ghost tcpDialed, ghost ioFail, ghost runsDone, ghost runFails
+
+// one end-to-end probe: exactly one RTT sample is appended (0 when the probe failed), plus the error if it failed
+//@ func (Traceroute).runTracerouteMulti$2
+//@ safety C15 C14
+//@ requires[pre.ctx]        ctx != nil && resultsAndErrorsMu != nil && !held(resultsAndErrorsMu) && sendN >= 0
+//@ onunlock resultsAndErrorsMu ghost e2eDone += 1
+//@ onunlock resultsAndErrorsMu ghost e2eFails += ite(lastres(runE2eProbeOnce, 1) != nil, 1, 0)
+//@ contributes e2eDone 1
+//@ atunlock[C15.e2e.sample] len(results.E2eProbe.RTTs) == atlock(len(results.E2eProbe.RTTs)) + 1 && results.E2eProbe.RTTs[len(results.E2eProbe.RTTs)-1] == ite(lastres(runE2eProbeOnce, 1) != nil, 0.0, lastres(runE2eProbeOnce, 0)) && len(results.Traceroute.Runs) == atlock(len(results.Traceroute.Runs))
+//@ atunlock[C15.e2e.err]    len(multiErr) == atlock(len(multiErr)) + ite(lastres(runE2eProbeOnce, 1) != nil, 1, 0) && (lastres(runE2eProbeOnce, 1) != nil ==> multiErr[len(multiErr)-1] == lastres(runE2eProbeOnce, 1))
+//@ ensures[C14.unlocked]    !held(resultsAndErrorsMu)
+//@ modifies *, ghost isOpen, ghost closeN, ghost clock, ghost sendN, ghost sendLog, ghost sendClock, ghost tcpDialed, ghost ioFail, ghost e2eDone, ghost e2eFails
+
+// public IP collection: never touches the runs or the samples whatever the fetcher does (it does not capture multiErr at all)
+//@ func (Traceroute).runTracerouteMulti$3
+//@ safety C15 C14
+//@ requires[pre.ctx]        ctx != nil && resultsAndErrorsMu != nil && !held(resultsAndErrorsMu) && t.publicIPFetcher != nil
+//@ atunlock[C15.pubip.frame] len(results.Traceroute.Runs) == atlock(len(results.Traceroute.Runs)) && len(results.E2eProbe.RTTs) == atlock(len(results.E2eProbe.RTTs))
+//@ ensures[C14.unlocked]    !held(resultsAndErrorsMu)
+//@ modifies *, ghost clock
